@@ -81,16 +81,36 @@ TARGETS += [
          fallback="fun t v s q => of_option (Tx.txin_to_bytes (Tx.Build_txin t v s q))"),
 ]
 
+TARGETS += [
+    dict(coq="src_witness_to_bytes", file="bitcoinutils/transactions.py", qual="TxWitnessInput.to_bytes", params=[],
+         selfattrs=[("stack", "list:hexbytes")], ret="bytes", tiefile="tx_whole",
+         fallback="fun st => of_option (Tx.witness_to_bytes st)"),
+    dict(coq="src_tx_to_bytes", file="bitcoinutils/transactions.py", qual="Transaction.to_bytes", params=[("has_segwit", "bool")],
+         selfattrs=[("version", "bytes"), ("inputs", "list:txin"), ("outputs", "list:txout"), ("witnesses", "list:witness"), ("locktime", "bytes")],
+         ret="bytes", tiefile="tx_whole",
+         fallback="fun hs v i o w l => of_option (Tx.tx_to_bytes (Tx.Build_tx v i o l false w) hs)"),
+]
+
 COQTY = {"int": "Z", "bytes": "bytes", "hexbytes": "bytes", "bool": "bool", "int*int": "(Z * Z)", "unit": "unit",
          "utf8": "bytes",          # a str that the code only ever .encode("utf-8")s: the model takes those bytes
          "str": "string",          # a str used as a tag: str.encode() of an ASCII tag is Sighash.str_bytes
          "script": "(list tok)",
-         "hexint": "Z"}            # an int returned as f"{x:064x}": the integer that is printed   # a Script object: its .to_bytes() is the model's Script.to_bytes (tied by C02)
+         "hexint": "Z",
+         "list:hexbytes": "(list bytes)", "list:txin": "(list Tx.txin)", "list:txout": "(list Tx.txout)", "list:witness": "(list (list bytes))"}            # an int returned as f"{x:064x}": the integer that is printed   # a Script object: its .to_bytes() is the model's Script.to_bytes (tied by C02)
 STRUCT = {"<B": 1, "<H": 2, "<I": 4, "<L": 4, "<Q": 8, "B": 1}
 STRUCT_SIGNED = {"<i": 4, "<l": 4, "<q": 8}
 
 
 METHODS = {}
+TRANSLATED = set()
+# element objects of the lists a method iterates over: attribute -> (type, model projection), method -> translated function
+OBJ = {
+    "txin": {"attrs": [("txid", "hexbytes", "Tx.ti_txid"), ("txout_index", "int", "Tx.ti_vout"), ("script_sig", "script", "Tx.ti_script"),
+                       ("sequence", "bytes", "Tx.ti_seq")], "methods": {"to_bytes": ("src_txin_to_bytes", "bytes")}, "coq": "Tx.txin"},
+    "txout": {"attrs": [("amount", "int", "Tx.to_amount"), ("script_pubkey", "script", "Tx.to_script")],
+              "methods": {"to_bytes": ("src_txout_to_bytes", "bytes")}, "coq": "Tx.txout"},
+    "witness": {"attrs": [("stack", "list:hexbytes", "")], "methods": {"to_bytes": ("src_witness_to_bytes", "bytes")}, "coq": "(list bytes)"},
+}
 
 
 class Unsupported(Exception):
@@ -135,6 +155,8 @@ class Tr:
     def __init__(self, target, consts, known):
         self.t = target
         self.consts = consts
+        self.translated = set()       # coq names of the functions translated so far on this run
+        self.tails = []               # what "falling off the end" means inside a loop body
         self.methods = {}             # method name -> (coq name, self attributes, ret type, hashes?) of translated methods callable on self
         self.known = known            # qualname tail -> (coq name, param types, ret type) of functions translated before
         self.env = {}                 # python local -> (coq ident, type)
@@ -171,6 +193,12 @@ class Tr:
             if key in self.env:
                 return [], self.env[key][0], self.env[key][1]
             raise Unsupported("attribute self.%s" % e.attr)
+        if isinstance(e, ast.Attribute) and isinstance(e.value, ast.Name) and e.value.id in self.env and self.env[e.value.id][1] in OBJ:
+            ident, ty = self.env[e.value.id]
+            for a, aty, proj in OBJ[ty]["attrs"]:
+                if a == e.attr:
+                    return [], ("(%s %s)" % (proj, ident)) if proj else ident, ("bytes" if aty == "hexbytes" else aty)
+            raise Unsupported("attribute %s of %s" % (e.attr, ty))
         if isinstance(e, ast.Tuple):
             if len(e.elts) != 2:
                 raise Unsupported("tuple arity")
@@ -347,7 +375,7 @@ class Tr:
             return p + [("opt", t, "py_bytes1 %s" % a)], t, "bytes"
         if isinstance(f, ast.Name) and f.id == "len" and len(e.args) == 1:
             p, a, ta = self.expr(e.args[0])
-            if ta != "bytes": raise Unsupported("len of %s" % ta)
+            if ta != "bytes" and not ta.startswith("list:"): raise Unsupported("len of %s" % ta)
             return p, "(Z.of_nat (length %s))" % a, "int"
         if isinstance(f, ast.Name) and f.id == "isinstance" and len(e.args) == 2:
             p, a, ta = self.expr(e.args[0])
@@ -386,6 +414,32 @@ class Tr:
             p, a, ta = self.expr(f.value.args[0])
             if ta != "bytes": raise Unsupported("sha256 of %s" % ta)
             return p, "(sha256 %s)" % a, "bytes"
+        # b"".join(<expr> for x in <list>)  /  b"".join([<expr> for x in <list>]): a loop that appends
+        if (isinstance(f, ast.Attribute) and f.attr == "join" and isinstance(f.value, ast.Constant) and f.value.value == b""
+                and len(e.args) == 1 and isinstance(e.args[0], (ast.GeneratorExp, ast.ListComp)) and len(e.args[0].generators) == 1):
+            g = e.args[0].generators[0]
+            if g.ifs or g.is_async or not isinstance(g.target, ast.Name): raise Unsupported("comprehension form")
+            pre, it, tit = self.expr(g.iter)
+            if not tit.startswith("list:"): raise Unsupported("iteration over %s" % tit)
+            ety = tit[len("list:"):]
+            saved = dict(self.env)
+            x = self.fresh(g.target.id + "_")
+            self.env[g.target.id] = (x, "bytes" if ety == "hexbytes" else ety)
+            pe, a, ta = self.expr(e.args[0].elt)
+            self.env = saved
+            if ta != "bytes": raise Unsupported("join of %s" % ta)
+            body = self.wrap(pe, "Ok (st_ ++ %s)" % a)
+            t = self.fresh()
+            return pre + [("res", t, "py_for %s [] (fun %s st_ =>\n%s)" % (it, x, body))], t, "bytes"
+        # x.to_bytes() on an element object of a list being iterated: the translated method of that class
+        if (isinstance(f, ast.Attribute) and isinstance(f.value, ast.Name) and f.value.id in self.env and self.env[f.value.id][1] in OBJ
+                and f.attr in OBJ[self.env[f.value.id][1]]["methods"] and not e.args and not e.keywords):
+            ident, ty = self.env[f.value.id]
+            coq, rty = OBJ[ty]["methods"][f.attr]
+            if coq not in self.translated: raise Unsupported("method %s.%s was not translated" % (ty, f.attr))
+            args = " ".join(("(%s %s)" % (proj, ident)) if proj else ident for _, _, proj in OBJ[ty]["attrs"])
+            t = self.fresh()
+            return [("res", t, "%s %s" % (coq, args))], t, rty
         # script.to_bytes(): the model's Script.to_bytes
         if isinstance(f, ast.Attribute) and f.attr == "to_bytes" and not e.args and not e.keywords:
             p, a, ta = self.expr(f.value)
@@ -495,7 +549,7 @@ class Tr:
 
     def stmts(self, ss):
         if not ss:
-            return self.end_of_body()
+            return self.tails[-1]() if self.tails else self.end_of_body()
         s, rest = ss[0], ss[1:]
         if isinstance(s, ast.Expr) and isinstance(s.value, ast.Constant) and isinstance(s.value.value, str):
             return self.stmts(rest)                     # docstring
@@ -545,6 +599,8 @@ class Tr:
             body = self.stmts(rest)
             self.env = saved
             return self.wrap(pre, "let %s := %s in\n%s" % (ident, a, body))
+        if isinstance(s, ast.For):
+            return self.for_loop(s, rest)
         if isinstance(s, ast.If):
             pre, c, tc = self.expr(s.test)
             saved = dict(self.env)
@@ -592,6 +648,63 @@ def _tuple_assign(self, s, rest):
 Tr.tuple_assign = _tuple_assign
 
 
+def _assigned_names(stmts_):
+    out = []
+    for st in stmts_:
+        for n in ast.walk(st):
+            if isinstance(n, (ast.Assign, ast.AugAssign, ast.AnnAssign)):
+                for t in (n.targets if isinstance(n, ast.Assign) else [n.target]):
+                    for x in ast.walk(t):
+                        if isinstance(x, ast.Name) and x.id not in out: out.append(x.id)
+                        if isinstance(x, ast.Attribute): raise Unsupported("attribute assignment inside a loop")
+            if isinstance(n, (ast.Return, ast.Break, ast.Continue, ast.While)):
+                raise Unsupported("%s inside a loop" % type(n).__name__)
+    return out
+
+
+def _for_loop(self, s, rest):
+    """for x in <list>: body   -- the body may only update variables that exist before the loop (the loop-carried state)
+    or raise; translated with PySem.py_for over that state, then the statements after the loop"""
+    if s.orelse or not isinstance(s.target, ast.Name):
+        raise Unsupported("loop form")
+    pre, it, tit = self.expr(s.iter)
+    if not tit.startswith("list:"):
+        raise Unsupported("iteration over %s" % tit)
+    ety = tit[len("list:"):]
+    carried = [n for n in _assigned_names(s.body) if n in self.env]
+    if not carried:
+        raise Unsupported("loop without carried state")
+    for n in carried:
+        if self.env[n][1] not in ("int", "bytes", "bool"): raise Unsupported("loop state of type %s" % self.env[n][1])
+    saved = dict(self.env)
+    x = self.fresh(s.target.id + "_")
+    self.env[s.target.id] = (x, "bytes" if ety == "hexbytes" else ety)
+    ins = []
+    for n in carried:
+        i_ = self.fresh(n + "_"); ins.append(i_); self.env[n] = (i_, saved[n][1])
+    tup = lambda names: names[0] if len(names) == 1 else "(" + ", ".join(names) + ")"
+    self.tails.append(lambda: "Ok " + tup([self.env[n][0] for n in carried]))
+    try:
+        body = self.stmts(list(s.body))
+    finally:
+        self.tails.pop()
+    self.env = dict(saved)
+    outs = []
+    for n in carried:
+        o_ = self.fresh(n + "_"); outs.append(o_); self.env[n] = (o_, saved[n][1])
+    after = self.stmts(rest)
+    self.env = saved
+    st0 = tup([saved[n][0] for n in carried])
+    pat_in = ins[0] if len(ins) == 1 else "'" + tup(ins)
+    pat_out = outs[0] if len(outs) == 1 else "'" + tup(outs)
+    text = ("match py_for %s %s (fun %s st_ => let %s := st_ in\n%s) with Ok st_ => let %s := st_ in\n%s | _ => Raise end"
+            % (it, st0, x, pat_in, body, pat_out, after))
+    return self.wrap(pre, text)
+
+
+Tr.for_loop = _for_loop
+
+
 def copy_load(t):
     import copy
     n = copy.deepcopy(t)
@@ -618,6 +731,7 @@ def translate(target, repo, consts, known):
     defaults = [ast.unparse(d) for d in args.defaults]
     tr = Tr(target, consts, known)
     tr.methods = dict(METHODS)
+    tr.translated = set(TRANSLATED)
     binders = ["(sha256 : bytes -> bytes)"] if target.get("sha") else []
     for p, ty in target["params"]:
         tr.env[p] = (p + "_", "bytes" if ty == "hexbytes" else ty)
@@ -645,6 +759,7 @@ def main():
     for t in TARGETS:
         try:
             text, defaults = translate(t, repo, consts, known)
+            TRANSLATED.add(t["coq"])
             out.append("(* %s:%s *)" % (t["file"], t["qual"]))
             out.append(text)
             defaults_out.append((t["coq"], defaults))
